@@ -63,6 +63,43 @@ pub fn operands(c: &Case) -> (Vec<u8>, u64, u64, Vec<u8>) {
     (key, t0, t1, blk)
 }
 
+/// The slice / parallel-block entry points of the block-cipher traits: n distinct blocks
+/// derived from `blk`; returns (encrypt_blocks output, decrypt_blocks(encrypt_blocks) output,
+/// decrypt_blocks output, par-blocks encrypt output, decrypt_par(encrypt_par) output, inputs).
+macro_rules! run_multi {
+    ($T:ty, $key:expr, $t0:expr, $t1:expr, $use_new:expr, $blk:expr, $n:expr) => {{
+        use cipher::generic_array::typenum::Unsigned;
+        let k = GenericArray::from_slice($key);
+        let fish = if $use_new { <$T>::new(k) } else { <$T>::with_tweak(k, $t0, $t1) };
+        let mk = |i: usize| -> cipher::Block<$T> {
+            let mut b = GenericArray::clone_from_slice($blk);
+            for (j, x) in b.iter_mut().enumerate() {
+                *x = x.wrapping_add((i * 37 + j * i) as u8).rotate_left(i as u32 % 8);
+            }
+            b
+        };
+        let inputs: Vec<cipher::Block<$T>> = (0..$n).map(mk).collect();
+        let mut e = inputs.clone();
+        fish.encrypt_blocks(&mut e);
+        let mut de = e.clone();
+        fish.decrypt_blocks(&mut de);
+        let mut d = inputs.clone();
+        fish.decrypt_blocks(&mut d);
+        let np = <<$T as cipher::BlockCipher>::ParBlocks as Unsigned>::USIZE;
+        let mut par: cipher::ParBlocks<$T> = Default::default();
+        for i in 0..np {
+            par[i] = mk(i + 1);
+        }
+        let par_in: Vec<Vec<u8>> = par.iter().map(|b| b.to_vec()).collect();
+        fish.encrypt_par_blocks(&mut par);
+        let par_e: Vec<Vec<u8>> = par.iter().map(|b| b.to_vec()).collect();
+        fish.decrypt_par_blocks(&mut par);
+        let par_de: Vec<Vec<u8>> = par.iter().map(|b| b.to_vec()).collect();
+        let v = |x: &Vec<cipher::Block<$T>>| -> Vec<Vec<u8>> { x.iter().map(|b| b.to_vec()).collect() };
+        (v(&inputs), v(&e), v(&de), v(&d), par_in, par_e, par_de)
+    }};
+}
+
 macro_rules! run_size {
     ($T:ty, $key:expr, $t0:expr, $t1:expr, $use_new:expr, $blk:expr) => {{
         let k = GenericArray::from_slice($key);
@@ -120,6 +157,48 @@ pub fn exec_mode(cx: &mut Ctx, c: &Case, do_enc: bool, do_dec: bool) {
         let exp = rtf::decrypt(&key, t0, t1, &blk);
         if d != exp {
             cx.log.violation(&format!("{}|wrong-plaintext", sigp), &format!("decrypt gives {} reference inverse {}", hex(&d[..16]), hex(&exp[..16])));
+        }
+    }
+    // one case in four also drives the slice and parallel-block entry points with distinct blocks
+    if c.seed % 4 == 0 {
+        let n = 1 + (c.seed >> 8) as usize % 5;
+        let r = guarded(|| match c.nb {
+            32 => run_multi!(Threefish256, &key, t0, t1, c.use_new, &blk, n),
+            64 => run_multi!(Threefish512, &key, t0, t1, c.use_new, &blk, n),
+            _ => run_multi!(Threefish1024, &key, t0, t1, c.use_new, &blk, n),
+        });
+        let (inp, e, de, d, par_in, par_e, par_de) = match r {
+            Ok(x) => x,
+            Err(p) => {
+                cx.log.panic_violation(&format!("{}|multi-block", sigp), &p);
+                return;
+            }
+        };
+        cx.log.eval(1);
+        cx.log.event("multi_block_calls", 1);
+        for i in 0..inp.len() {
+            if do_enc && e[i] != rtf::encrypt(&key, t0, t1, &inp[i]) {
+                cx.log.violation(&format!("{}|encrypt_blocks-wrong-ciphertext", sigp), &format!("encrypt_blocks over {} blocks: block {} differs from the reference", inp.len(), i));
+                break;
+            }
+            if do_dec && de[i] != inp[i] {
+                cx.log.violation(&format!("{}|decrypt_blocks-of-encrypt_blocks-not-identity", sigp), &format!("{} blocks: block {} is not restored", inp.len(), i));
+                break;
+            }
+            if do_dec && d[i] != rtf::decrypt(&key, t0, t1, &inp[i]) {
+                cx.log.violation(&format!("{}|decrypt_blocks-wrong-plaintext", sigp), &format!("decrypt_blocks over {} blocks: block {} differs from the reference inverse", inp.len(), i));
+                break;
+            }
+        }
+        for i in 0..par_in.len() {
+            if do_enc && par_e[i] != rtf::encrypt(&key, t0, t1, &par_in[i]) {
+                cx.log.violation(&format!("{}|encrypt_par_blocks-wrong-ciphertext", sigp), &format!("encrypt_par_blocks: block {} of {} differs from the reference", i, par_in.len()));
+                break;
+            }
+            if do_dec && par_de[i] != par_in[i] {
+                cx.log.violation(&format!("{}|decrypt_par_blocks-not-inverse", sigp), &format!("decrypt_par_blocks(encrypt_par_blocks(x)): block {} of {} is not restored", i, par_in.len()));
+                break;
+            }
         }
     }
 }
